@@ -149,3 +149,19 @@ Definition badwn_C09 := badwn_mon mon_C09.
 (* C12: a stop signal to p is judged against the processes that DEPEND on p, so the windows that explain a
    violation are those of other names: the whole history up to the violation counts *)
 Definition badwn_C12 (ts : list trace) : list nat := badw_C12 ts.
+
+(* ---- C03, oracle beyond the theorem: mon_C03 judges a shutdown by the snapshot the implementation reports
+   (EShutdownOrder); this test-level monitor judges it by the observer's own facts: when a ShutDownProject call
+   ends NO command at all is alive and NO name is reported running, whatever the snapshot said (the registry lock is
+   held for the whole call, so nothing can have been registered and launched meanwhile).  No theorem covers it. *)
+Definition mon_C03x (cs : amap pconf) (o : obs) (te : tid * event) : bool :=
+  match snd te with
+  | EShutdownEnd =>
+      forallb (fun p => negb (o_alive (snd p))) (oi o) &&
+      forallb (fun p => negb (is_running_status (r_status (snd p)))) (onm o)
+  | _ => true
+  end.
+Definition holds_C03x cs evs := holds cs mon_C03x evs.
+Definition bad_C03x := bad_mon holds_C03x.
+(* the offending instance may have any name: whole-history windows *)
+Definition badwn_C03x := badw_mon mon_C03x.
